@@ -218,7 +218,9 @@ def framing(repo: Repo, chk: Check, rule: str) -> None:
     src = f.params[1]
     end = Lin.atom(("end", src))
     for p in paths:
-        with_tr = any("auth_len" in c.desc and pol for c, pol in p.conds)
+        from .c11 import implied
+
+        with_tr = any("auth_len" in c.desc and pol for c, pol in implied(p.conds))
         hdr = [r for r in p.reads if r.kind == "nested" and r.a["cls"].name == "PDUHeader"]
         ok = bool(hdr) and hdr[0].lo == 0
         chk.ob(rule, Site.of(f, hdr[0].node if hdr else None, None if hdr else "PDU.unpack: header"), ok, "header decoded from offset 0" if ok else "PDU header is not decoded from offset 0")
